@@ -224,7 +224,8 @@ class FileLintContext(BaseLintContext):
         if not self._path or not self._path.exists():
             return None
         try:
-            self._content = self._path.read_text(encoding="utf-8")
+            # utf-8-sig: a leading byte-order mark is an encoding detail, not part of the program
+            self._content = self._path.read_text(encoding="utf-8-sig")
         except (UnicodeDecodeError, OSError):
             self._content = None
         return self._content
